@@ -550,7 +550,7 @@ fn summary_render(ctx: &Ctx, res: &mut PartResult, maxlen: usize) {
 
 fn parts(ctx: &Ctx) -> Vec<PartSpec> {
     let q = ctx.quick();
-    let b = if q { 50.0 } else { 2400.0 };
+    let b = if q { 150.0 } else { 2400.0 };
     vec![
         PartSpec::new("histogram-direct", json!({"p": "hd", "n": if q { 4 } else { 5 }})).budget(b),
         PartSpec::new("histogram-render", json!({"p": "hr", "n": if q { 3 } else { 4 }})).budget(b),
